@@ -1,9 +1,124 @@
 import Drivers.Proto
-/-! Model driver for property C09 (stub: no model operations registered yet). -/
-open Lean Proto
+import St4sd.Model.Ref
+import St4sd.Gen.C09
+/-! Model driver for property C09 (data references). -/
+open Lean Proto St4sd.Ref St4sd.Str
+
+def sfC : List S := St4sd.Gen.C09.specialFoldersC
+def methodsC : List S := St4sd.Gen.C09.dataReferenceMethodsC
+
+def getOptNat (j : Json) (k : String) : Except String (Option Nat) :=
+  match j.getObjVal? k with
+  | .ok Json.null => pure none
+  | .ok v => do return some (← v.getNat?)
+  | .error _ => pure none
+
+def getOptCharsList (j : Json) (k : String) : Except String (Option (List S)) :=
+  match j.getObjVal? k with
+  | .ok Json.null => pure none
+  | .ok v => do return some ((← (← v.getArr?).toList.mapM (·.getStr?)).map String.toList)
+  | .error _ => pure none
+
+def getOptChars (j : Json) (k : String) : Except String (Option S) := do
+  return (← getOptStr j k).map String.toList
+
+def getKnown (j : Json) (k : String) : Except String (Option (List (Nat × List S))) :=
+  match j.getObjVal? k with
+  | .ok Json.null => pure none
+  | .ok v => do
+    let es ← v.getArr?
+    let l ← es.toList.mapM fun e => do
+      let s ← getNat e "s"
+      let n ← getCharsList e "n"
+      pure (s, n)
+    return some l
+  | .error _ => pure none
+
+def jerr : Json := jobj [("err", jbool true)]
+def jonat (o : Option Nat) : Json := jopt jnat o
+def jochars (o : Option S) : Json := jopt jchars o
 
 def handle (j : Json) : Except String Json := do
   let op ← getStr j "op"
-  throw s!"unknown op {op}"
+  match op with
+  | "pdr" =>
+    let v ← getChars j "v"
+    match parseDataReference sfC v with
+    | none => return jerr
+    | some (r, f, m) => return jarr [jchars r, jochars f, jchars m]
+  | "ppr" =>
+    let r ← getChars j "r"
+    let i ← getOptNat j "i"
+    let p := parseProducerReference r i
+    return jarr [jonat p.1, jchars p.2.1, jbool p.2.2]
+  | "full" =>
+    let v ← getChars j "v"
+    let i ← getOptNat j "i"
+    let deps ← getCharsList j "deps"
+    let extra ← getCharsList j "extra"
+    match parseFull sfC v i deps extra with
+    | none => return jerr
+    | some (si, job, f, m) => return jarr [jonat si, jchars job, jochars f, jchars m]
+  | "isc" =>
+    let v ← getChars j "v"
+    let tlf ← getCharsList j "tlf"
+    match isDataRefToComponent sfC v tlf with
+    | none => return jerr
+    | some b => return jbool b
+  | "compile" =>
+    let p ← getChars j "p"
+    let f ← getOptChars j "f"
+    let m ← getChars j "m"
+    let s ← getOptNat j "s"
+    let r ← getOptNat j "r"
+    return jchars (compileReference p f m s r)
+  | "expand" =>
+    let v ← getChars j "v"
+    let ctx ← getNat j "ctx"
+    let known ← getKnown j "known"
+    let tlf ← getOptCharsList j "tlf"
+    let force ← getBool j "force"
+    match expandPotential sfC v ctx known tlf force with
+    | none => return jerr
+    | some r => return jchars r
+  | "expand1" =>
+    let v ← getChars j "v"
+    let ctx ← getNat j "ctx"
+    let known ← getKnown j "known"
+    let deps ← getCharsList j "deps"
+    let tlf ← getCharsList j "tlf"
+    match expandOne sfC v ctx known deps tlf with
+    | none => return jerr
+    | some r => return jchars r
+  | "dref" =>
+    let v ← getChars j "v"
+    let i ← getOptNat j "i"
+    match dataRef sfC methodsC v i with
+    | none => return jerr
+    | some d => return jobj [("stage", jonat d.stage), ("name", jchars d.name), ("has", jbool d.hasIndex),
+        ("file", jochars d.file), ("method", jchars d.method), ("id", jchars d.identifier),
+        ("abs", jchars d.absolute), ("rel", jchars d.relative), ("uid", jchars (uidEscape d.identifier))]
+  | "tlf" =>
+    let keys ← getCharsList j "keys"
+    return jarr ((topLevelFolders keys).map jchars)
+  | "tlfold" =>
+    let keys ← getCharsList j "keys"
+    return jarr ((topLevelFoldersOld keys).map jchars)
+  | "appdep" =>
+    let v ← getChars j "v"
+    return jchars (appDepName v)
+  | "isvar" =>
+    let v ← getChars j "v"
+    return jbool (isVarRef v)
+  | "validate" =>
+    let v ← getChars j "v"
+    let stage ← getNat j "stage"
+    let known ← getKnown j "known"
+    let tlf ← getCharsList j "tlf"
+    match validateMissing sfC v stage (known.getD []) tlf with
+    | none => return jerr
+    | some none => return Json.null
+    | some (some (i, job)) => return jchars (stagePrefix i ++ job)
+  | _ => throw s!"unknown op {op}"
 
 def main : IO Unit := serve handle
